@@ -126,6 +126,13 @@ def check_tree(ctx, out, spec, tag, rot, levelorder=False, tree=None):
         if n.data_id not in dids:
             dids.append(n.data_id)
     by_data = [[pool.canon_did(d), adapter.ids(tree.find_all(data_id=d), ser)] for d in dids]
+    known = {ser.of(n) for n in nodes}
+    ghosts = [(d, [x for x in l if x not in known]) for d, l in by_data if any(x not in known for x in l)]
+    if ghosts:
+        # the search returns a node object that is not in the tree (the model has no name for it: nothing to ask the driver)
+        out.fail(dict(q="treeId", spec=spec, did=ghosts[0][0], k=None, levelorder=levelorder),
+                 f"tree.find_all(data_id={ghosts[0][0]!r}) returns {len(ghosts[0][1])} node(s) that are not in the tree")
+        return
     by_id = [[n.node_id, ser.of(n)] for n in nodes]
     # absent ids (also strings that ARE the data of a node, or its name: looking an id up must leave nothing behind that a
     # later `tree[<the same string>]` by data would stumble over)
@@ -279,14 +286,16 @@ def run(ctx):
 
     for h in range(100 if ctx.thorough else 20):
         impl = world.ImplWorld(ctx.pool)
-        impl.new(False)
-        impl.new(False)
+        typed_h = h % 3 == 2               # every third history on typed trees (the overrides of the typed classes)
+        mal_h = 0.3 if h % 4 == 1 else 0.03    # every fourth with many refused calls (what a refusal leaves behind is searched)
+        impl.new(typed_h)
+        impl.new(typed_h)
         impl._bij = world.Bij()
         log = []
         every = 1 if h % 2 else 6      # every second history is searched after EVERY operation (short histories)
         for i in range(ctx.rng.randrange(5, 30 if ctx.thorough else 18) if every > 1 else ctx.rng.randrange(4, 11)):
             ti = 0 if ctx.rng.random() < 0.85 else 1
-            op = H.random_op(ctx.rng, impl, ti, labels=[0, 1, 6, 7, 12], malformed=0.03, did_rate=0.35, dids=("A", "B", "a1", 7, 0, ""),
+            op = H.random_op(ctx.rng, impl, ti, labels=[0, 1, 6, 7, 12], malformed=mal_h, did_rate=0.35, dids=("A", "B", "a1", 7, 0, ""),
                              ops=["add", "add", "add", "addnode", "addtree", "move", "move", "remove", "remove", "removechildren", "setdata", "setdata", "setdata",
                                   "sort", "sort", "del", "shortcut"])
             impl.apply(op)
@@ -295,17 +304,17 @@ def run(ctx):
                 # query - mutate - query: the same tree object is searched at several points of its history (an answer
                 # memoised by an earlier search must not survive a mutation)
                 try:
-                    check_tree(ctx, out, {"history": list(log), "tree": 0, "checked_every": every}, "hist", rot, tree=impl.trees[0])
+                    check_tree(ctx, out, {"history": list(log), "tree": 0, "checked_every": every, "typed": typed_h}, "hist", rot, tree=impl.trees[0])
                 except core.MachineryError:
                     raise
                 except Exception as e:  # noqa
-                    out.fail(dict(q="history", spec={"history": list(log), "tree": 0}), f"searches raised {type(e).__name__}: {e} on a tree reached by {len(log)} operations")
+                    out.fail(dict(q="history", spec={"history": list(log), "tree": 0, "typed": typed_h}), f"searches raised {type(e).__name__}: {e} on a tree reached by {len(log)} operations")
         try:
-            check_tree(ctx, out, {"history": log, "tree": 0, "checked_every": every}, "hist", rot, tree=impl.trees[0])
+            check_tree(ctx, out, {"history": log, "tree": 0, "checked_every": every, "typed": typed_h}, "hist", rot, tree=impl.trees[0])
         except core.MachineryError:
             raise
         except Exception as e:  # noqa
-            out.fail(dict(q="history", spec={"history": log, "tree": 0}), f"searches raised {type(e).__name__}: {e} on a tree reached by {len(log)} operations")
+            out.fail(dict(q="history", spec={"history": log, "tree": 0, "typed": typed_h}), f"searches raised {type(e).__name__}: {e} on a tree reached by {len(log)} operations")
         out.dist["history_tree"] += 1
     return out
 
@@ -338,8 +347,8 @@ def replay(ctx, rp):
         import world
 
         impl = world.ImplWorld(ctx.pool)
-        impl.new(False)
-        impl.new(False)
+        impl.new(bool(sp.get("typed")))
+        impl.new(bool(sp.get("typed")))
         impl._bij = world.Bij()
         for i, op in enumerate(sp["history"]):
             impl.apply(dict(op))
